@@ -47,6 +47,7 @@ PARAMS = ('a', 'b', 'n', 's', 'l', 'k')
 LENGTH = {'s': ('minchars', 'maxchars'), 'l': ('minlen', 'maxlen'), 'k': ('minbytes', 'maxbytes')}   # limits = lengths
 UNITS = {'': 0, 'mm': 1, 'K': 2}
 VIS = {1: 'user', 2: 'advanced', 3: 'expert', 9: 'bogus'}
+GROUPS = {0: '', 1: 'g1', 2: 'g2'}
 MODNAME = 'frappy_verifc10'          # get_class() only imports names starting with 'frappy'
 
 # ------------------------------------------------------------------ the configured class
@@ -57,6 +58,7 @@ def _classes():
     if MODNAME in sys.modules:
         return sys.modules[MODNAME]
     from frappy.core import ArrayOf, BLOBType, Command, FloatRange, IntRange, Parameter, Property, Readable, StringType
+    from frappy.errors import HardwareError
     from frappy.params import Limit
 
     class CfgMod(Readable):
@@ -65,7 +67,8 @@ def _classes():
         op = Property('optional property', FloatRange(0, 10), default=1, extname='_op')
         a = Parameter('a', FloatRange(0, 100), default=1, readonly=False)
         b = Parameter('b', IntRange(0, 10), default=2, readonly=False)
-        n = Parameter('n', FloatRange(0, 100), needscfg=True, readonly=False)
+        value = Parameter(unit='K')                 # the main unit ...
+        n = Parameter('n', FloatRange(0, 100, unit='$'), needscfg=True, readonly=False)      # ... replaces '$'
         s = Parameter('s', StringType(maxchars=8), default='x', readonly=False)
         l = Parameter('l', ArrayOf(FloatRange(), 0, 3), default=[], readonly=False)
         k = Parameter('k', BLOBType(0, 4), default=b'', readonly=False)
@@ -80,6 +83,10 @@ def _classes():
 
         def write_n(self, value):
             self._hw('write', 'n', value)
+            if value == 6.5:        # a driver that refuses: still handed over exactly once
+                raise HardwareError('the hardware refuses 6.5')
+            if value == 7.5:
+                raise ValueError('a bug in the driver')
             return value
 
         def write_s(self, value):
@@ -103,9 +110,30 @@ def _classes():
             """a command"""
             return x
 
-    CfgMod.__module__ = MODNAME
+    from frappy.io import HasIO
+    from frappy.modules import Module
+
+    class CfgModU(CfgMod):
+        """never polled: gets a thread only for the configured writes"""
+        enablePoll = False
+
+    class CfgModOnIO(HasIO, CfgModU):
+        """never polled, served by the poll thread of its io module"""
+
+    class CfgModPIO(HasIO, CfgMod):
+        """polled by the poll thread of its io module"""
+
+    class CfgIO(Module):
+        """fixture: the io module (polled itself)"""
+
+    class CfgIOU(Module):
+        """fixture: an io module that is not polled itself"""
+        enablePoll = False
+
     m = types.ModuleType(MODNAME)
-    m.CfgMod = CfgMod
+    for c in (CfgMod, CfgModU, CfgModOnIO, CfgModPIO, CfgIO, CfgIOU):
+        c.__module__ = MODNAME
+        setattr(m, c.__name__, c)
     sys.modules[MODNAME] = m
     return m
 
@@ -134,17 +162,24 @@ def _pyval(e):
         return tuple(x // 2 if x % 2 == 0 else x / 2 for x in (v['n'], v['m']))
     if e['prop'] == 'unit':
         return {1: 'mm', 2: 'K'}[n]
+    if e['prop'] == 'group':
+        return GROUPS[n]
     if e['prop'] == 'visibility':
         return VIS[n]
     return 'abc'
 
 
 def _grouped(entries):
-    """[(par, bare value | {prop: value})] in a deterministic order"""
-    by = {}
+    """[(par, bare value | {prop: value})] in a deterministic order; a group given in form 'G' becomes
+    a Group(...) keyword of the Mod (returned as (group name, 'group', [members]))"""
+    by, groups = {}, {}
     for e in sorted(entries, key=lambda e: (e['par'], e['prop'])):
-        by.setdefault(e['par'], []).append(e)
-    res = []
+        if e['prop'] == 'group' and e['form'] == 'G':
+            groups.setdefault(_pyval(e), []).append(e['par'])
+            by.setdefault(e['par'], [])          # Group() needs a Param of the member
+        else:
+            by.setdefault(e['par'], []).append(e)
+    res = [(g, 'group', members) for g, members in sorted(groups.items())]
     for par, es in by.items():
         if len(es) == 1 and es[0]['prop'] == 'value' and es[0]['form'] == 'B':
             res.append((par, True, _pyval(es[0])))
@@ -154,22 +189,28 @@ def _grouped(entries):
     return res
 
 
-def _mod_source(name, entries):
-    args = []
+KINDCLS = {'polled': 'CfgMod', 'unpolled': 'CfgModU', 'onio': 'CfgModOnIO', 'pio': 'CfgModPIO'}
+IONAME = 'io1'
+
+
+def _mod_source(name, entries, kind='polled'):
+    args = ['io=%r' % IONAME] if kind in ('onio', 'pio') else []
     for par, bare, val in _grouped(entries):
-        if bare:
+        if bare == 'group':
+            args.append('%s=Group(%s)' % (par, ', '.join(map(repr, val))))
+        elif bare:
             args.append(f'{par}={val!r}')
         else:
             args.append('%s=Param(%s)' % (par, ', '.join(f'{k}={v!r}' for k, v in val.items())))
-    return "Mod(%r, '%s.CfgMod', 'module %s'%s)\n" % (name, MODNAME, name, ''.join(', ' + a for a in args))
+    return "Mod(%r, '%s.%s', 'module %s'%s)\n" % (name, MODNAME, KINDCLS[kind], name, ''.join(', ' + a for a in args))
 
 
 def _mod_cfgdict(entries):
     """the dict the server would hand to the constructor, built by the real config DSL"""
-    from frappy.config import Mod, Param
+    from frappy.config import Group, Mod, Param
     kw = {}
     for par, bare, val in _grouped(entries):
-        kw[par] = val if bare else Param(**val)
+        kw[par] = Group(*val) if bare == 'group' else val if bare else Param(**val)
     d = dict(Mod('m', MODNAME + '.CfgMod', 'a module', **kw))
     d.pop('name')
     d.pop('cls')
@@ -197,7 +238,8 @@ def _lim(x):
 def project(obj, entries, node=False):
     """state of an accepted module in the vocabulary of ConfigRules.Exp"""
     use_wrapper = not any(e['par'].endswith('_limits') for e in entries)
-    st = {k: {} for k in ('start', 'lo', 'hi', 'unit', 'vis', 'readonly', 'exported', 'probes', 'writes', 'mprops')}
+    st = {k: {} for k in ('start', 'lo', 'hi', 'unit', 'vis', 'group', 'constant', 'readonly', 'exported', 'probes',
+                          'writes', 'mprops')}
     for p in PARAMS:
         po = obj.parameters[p]
         info = po.for_export()['datainfo']
@@ -207,13 +249,15 @@ def project(obj, entries, node=False):
         st['hi'][p] = _lim(info.get(hi, 1e9))
         st['unit'][p] = UNITS.get(info.get('unit', ''), -1)
         st['vis'][p] = int(po.visibility)
+        st['group'][p] = {v: k for k, v in GROUPS.items()}.get(po.group, -1)
+        st['constant'][p] = _tick(po.constant)
         st['readonly'][p] = bool(po.readonly)
         st['exported'][p] = bool(po.export)
     if not node:     # (a started node has consumed writeDict: there the driver log is judged instead)
         st['writes'] = {p: _tick(v) for p, v in obj.writeDict.items() if p in PARAMS}
     else:
         del st['writes']
-    st['mprops'] = {'mp': _tick(obj.mp), 'op': _tick(obj.op)}
+    st['mprops'] = {'mp': _tick(obj.mp), 'op': _tick(obj.op), 'export': _tick(bool(obj.export))}
     for p in PARAMS:      # later range checks (last: they change the value)
         pr = []
         for n in (st['lo'][p] - 2, st['lo'][p], st['hi'][p], st['hi'][p] + 2):
@@ -294,10 +338,13 @@ def run_module(entries):
 
 # ------------------------------------------------------------------ node level
 
-def _file_source(i, f, share):
-    """text of one *_cfg.py; share: a Param(...) used by several modules of the file is ONE object"""
+def _file_source(i, f, share, io=None):
+    """text of one *_cfg.py; share: a Param(...) used by several modules of the file is ONE object;
+    io: class of the io module (fixture, defined in the first file) when a module needs one"""
     lines = ["Node('equipment%d', 'node from file %d', 'tcp://0')\n" % (i + 1, i + 1)]
-    mods = [_mod_source(mod['m'], mod['cfg']) for mod in f]
+    if io:
+        lines.append("Mod(%r, '%s.%s', 'the io module')\n" % (IONAME, MODNAME, io))
+    mods = [_mod_source(mod['m'], mod['cfg'], mod.get('kind', 'polled')) for mod in f]
     if share:
         exprs = re.findall(r'Param\([^()]*\)', ''.join(mods))
         for k, ex in enumerate(sorted({e for e in exprs if exprs.count(e) > 1})):
@@ -322,8 +369,9 @@ def _observe_run(srv, files, trace):
     except Exception as e:      # an observation, not a harness failure
         outcome = 'crashed: %s' % type(e).__name__
     sec = srv.secnode
-    mods = {m: o for m, o in sec.modules.items() if o is not None}
-    registered = sorted(sec.modules)
+    allmods = {m: o for m, o in sec.modules.items() if o is not None}
+    mods = {m: o for m, o in allmods.items() if m != IONAME}          # (the io module is a fixture)
+    registered = sorted(m for m in sec.modules if m != IONAME)
     started = [m for m, o in mods.items() if o.startModuleDone]
     if outcome == 'refused' and started:
         # evidence only: give the poll threads that were started a moment to touch the hardware
@@ -334,7 +382,7 @@ def _observe_run(srv, files, trace):
     try:
         sec.shutdown_modules()
     except Exception:           # (a node in a broken state: stop the threads we know of)
-        for o in mods.values():
+        for o in allmods.values():
             o.stopPollThread()
     errors = list(sec.errors)
     merged = {}
@@ -342,6 +390,8 @@ def _observe_run(srv, files, trace):
         for mod in f:
             merged.setdefault(mod['m'], mod['cfg'])
     for m in srv.module_cfg:
+        if m == IONAME:
+            continue
         if m in mods:
             trace.append({'ev': 'create', 'm': m, 'out': 'accepted', 'st': project(mods[m], merged[m], node=True),
                           'orig': mods[m].original_id is not None})
@@ -374,7 +424,7 @@ def _observe_run(srv, files, trace):
     trace.append(ev)
 
 
-def run_node(files, mode='plain'):
+def run_node(files, mode='plain', iopolled=True):
     """files: [[{'m': name, 'cfg': [entries]}, ...], ...] -> trace (list of events)
     mode 'share': a Param(...) used by several modules of a file is one object;
     mode 'twice': the loaded configuration is processed a second time (what Server.run does after restart())"""
@@ -382,12 +432,16 @@ def run_node(files, mode='plain'):
     import signal
     from frappy.lib import generalConfig
     from frappy.server import Server
+    for f in files:
+        for mod in f:
+            mod.setdefault('kind', 'polled')
     d = tempfile.mkdtemp(prefix='c10-')
     paths = []
     for i, f in enumerate(files):
         p = os.path.join(d, 'node%d_cfg.py' % i)
         with open(p, 'w') as fh:
-            fh.write(_file_source(i, f, mode == 'share'))
+            needs_io = i == 0 and any(mod.get('kind') in ('onio', 'pio') for ff in files for mod in ff)
+            fh.write(_file_source(i, f, mode == 'share', ('CfgIO' if iopolled else 'CfgIOU') if needs_io else None))
         paths.append(p)
     saved_cfg = dict(generalConfig._config or {})
     generalConfig.testinit(confdir=[Path(d)], piddir=Path(d), **{k: v for k, v in saved_cfg.items() if k not in ('confdir', 'piddir')})
@@ -398,7 +452,7 @@ def run_node(files, mode='plain'):
     try:
         srv = Server('verifnode', Log(), cfgfiles=paths)
         for k in range(2 if mode == 'twice' else 1):
-            trace.append({'ev': 'node', 'files': files, 'mode': mode, 'run': k + 1})
+            trace.append({'ev': 'node', 'files': files, 'mode': mode, 'run': k + 1, 'iopolled': iopolled})
             _observe_run(srv, files, trace)
     finally:
         signal.signal, sys.stderr = saved_signal, saved_err
@@ -408,7 +462,7 @@ def run_node(files, mode='plain'):
 
 
 def _run_node_case(case):
-    return run_node(case['files'], case.get('mode', 'plain'))
+    return run_node(case['files'], case.get('mode', 'plain'), case.get('iopolled', True))
 
 
 # ------------------------------------------------------------------ random configurations (code -> spec)
@@ -497,14 +551,15 @@ def _random_module_trace(seed):
 def _random_node_trace(seed):
     rnd = random.Random(seed)
     n = rnd.randint(2, 4)
-    mods = [{'m': 'm%d' % (k + 1), 'cfg': random_cfg(rnd, 0.8)} for k in range(n)]
+    mods = [{'m': 'm%d' % (k + 1), 'cfg': random_cfg(rnd, 0.8),
+             'kind': rnd.choice(['polled', 'polled', 'unpolled', 'onio', 'pio'])} for k in range(n)]
     if rnd.random() < 0.5:
         files = [mods]
     else:
         cut = rnd.randint(1, n - 1)
         second = mods[cut:]
         if rnd.random() < 0.5:
-            second = [{'m': 'm1', 'cfg': random_cfg(rnd, 0.3)}] + second
+            second = [{'m': 'm1', 'cfg': random_cfg(rnd, 0.3), 'kind': 'polled'}] + second
         files = [mods[:cut], second]
     if rnd.random() < 0.4:      # several modules configured from ONE Param object
         src = next((e for e in mods[0]['cfg'] if e['par'] == 'a' and e['form'] == 'P'), None)
@@ -512,7 +567,7 @@ def _random_node_trace(seed):
             for mod in mods[1:]:
                 mod['cfg'] = [e for e in mod['cfg'] if e['par'] != 'a'] + \
                     [dict(e) for e in mods[0]['cfg'] if e['par'] == 'a']
-    return run_node(files, rnd.choice(['plain', 'share', 'share', 'twice']))
+    return run_node(files, rnd.choice(['plain', 'share', 'share', 'twice']), rnd.random() < 0.7)
 
 
 # ------------------------------------------------------------------ check
@@ -528,7 +583,8 @@ def _cmp_module(beh, got):
     if got['out'] != 'accepted':
         return None
     exp, st = beh['exp'], got['st']
-    for field in ('start', 'lo', 'hi', 'unit', 'vis', 'readonly', 'exported', 'probes', 'writes', 'mprops'):
+    for field in ('start', 'lo', 'hi', 'unit', 'vis', 'group', 'constant', 'readonly', 'exported', 'probes', 'writes',
+                  'mprops'):
         want = exp[field] or {}
         for k, v in want.items():
             have = st[field].get(k)
@@ -595,7 +651,7 @@ def run(chk):
     r, nodes = emit_behaviours('Gen_ConfigNode', 'Gen_ConfigNode_quick.cfg' if quick else 'Gen_ConfigNode_thorough.cfg',
                                maximal_only=False, timeout=900)
     chk.add_tlc(r)
-    files = [{'files': n['files'], 'mode': n['mode']} for n in nodes]
+    files = [{'files': n['files'], 'mode': n['mode'], 'iopolled': n['iopolled']} for n in nodes]
     traces = pool_map(_run_node_case, files)
     for n, tr in zip(nodes, traces):
         chk.impl_traces += 1
